@@ -21,6 +21,7 @@ import (
 	"github.com/brutella/hc/characteristic"
 	hccrypto "github.com/brutella/hc/crypto"
 	"github.com/brutella/hc/hap"
+	hchttp "github.com/brutella/hc/hap/http"
 	hclog "github.com/brutella/hc/log"
 	"github.com/brutella/hc/verifshim/vsync"
 
@@ -177,6 +178,13 @@ const closer = -6
 // notifyLong as a thread's only "length": like notify, for a string characteristic set to 3000 bytes — an EVENT of
 // four frames, longer than the 2048-byte pieces hc cuts response bodies into.
 const notifyLong = -7
+
+// switching as a thread's only "length": the connection has just completed pair-verify — its session holds the new
+// keys but has not switched yet. This thread is the connection's reader: it reads the controller's first encrypted
+// request (which switches the session) and then writes the response. The other threads of such a scenario write
+// while that happens (the plain pair-verify response still in the socket, a keep-alive). Seen from the accessory, the
+// wire is then: messages in plain text, and from some point on frames — never plain text after the first frame.
+const switching = -8
 
 func has(writers [][]int, kind int) bool {
 	for _, w := range writers {
@@ -419,6 +427,63 @@ func judgeFrom(secret [32]byte, wire [][]byte, want [][]byte, start uint64, clos
 	return "", ""
 }
 
+// judgeSwitch: the wire of a connection that switches to encryption while writers are active. Every socket write is
+// either one of the payloads in plain text or frames; once a frame has been written no plain text follows; the
+// frames decrypt in order from counter 0 into whole payloads; every payload got out one way or the other.
+func judgeSwitch(wire [][]byte, want [][]byte) (sym, desc string) {
+	left := append([][]byte{}, want...)
+	take := func(p []byte) bool {
+		for i, w := range left {
+			if bytes.Equal(w, p) {
+				left = append(left[:i], left[i+1:]...)
+				return true
+			}
+		}
+		return false
+	}
+	var cipher []byte
+	encrypted := false
+	for i, rec := range wire {
+		if !encrypted && take(rec) {
+			continue // a whole payload in plain text, before any frame
+		}
+		if encrypted {
+			for _, w := range want {
+				if bytes.Equal(w, rec) {
+					return "plaintext-after-switch", fmt.Sprintf("socket write %d is a message in plain text (%q…) although frames of the encrypted session were written before it", i, string(trunc(rec, 24)))
+				}
+			}
+		}
+		encrypted = true
+		cipher = append(cipher, rec...)
+	}
+	a2c, _ := refctl.SessionKeys(secret[:])
+	var ctr uint64
+	pts, err := refctl.OpenFrames(a2c, &ctr, cipher)
+	if err != nil {
+		return "undecryptable", fmt.Sprintf("after the switch frame %d does not decrypt with the counter of its arrival position (%v)", ctr, err)
+	}
+	plain := bytes.Join(pts, nil)
+	for len(plain) > 0 {
+		ok := false
+		for _, w := range left {
+			if bytes.HasPrefix(plain, w) {
+				plain = plain[len(w):]
+				take(w)
+				ok = true
+				break
+			}
+		}
+		if !ok {
+			return "interleaved", "after the switch the decrypted stream is not a sequence of whole payloads"
+		}
+	}
+	if len(left) > 0 {
+		return "missing", fmt.Sprintf("%d payload(s) never reached the wire", len(left))
+	}
+	return "", ""
+}
+
 func trunc(b []byte, n int) []byte {
 	if len(b) > n {
 		return b[:n]
@@ -492,6 +557,15 @@ func execute(c *fw.Ctx, writers [][]int, prefix []int, bound int, prior int) []s
 			c.Infra("transport scenario: " + err.Error())
 			return nil
 		}
+	} else if has(writers, switching) {
+		ctx := hap.NewContextForSecuredDevice(nil)
+		lastCtx = ctx
+		conn = hap.NewConnection(fc, ctx)
+		cs, err := hccrypto.NewSecureSessionFromSharedKey(secret)
+		if err != nil {
+			panic(err)
+		}
+		ctx.GetSessionForConnection(fc).SetCryptographer(cs) // pending: the first decrypted read switches
 	} else {
 		conn = setup(fc)
 	}
@@ -519,6 +593,13 @@ func execute(c *fw.Ctx, writers [][]int, prefix []int, bound int, prior int) []s
 	}
 	var reqPlain, reqGot []byte
 	var reqErr error
+	if has(writers, switching) {
+		reqPlain = requestPlain()
+		_, c2a := refctl.SessionKeys(secret[:])
+		var rc uint64
+		ct := refctl.Frames(c2a, &rc, reqPlain)
+		fc.in = append(fc.in, ct[:600], ct[600:])
+	}
 	if has(writers, read) {
 		fc.slow = true
 		reqPlain = requestPlain()
@@ -555,6 +636,19 @@ func execute(c *fw.Ctx, writers [][]int, prefix []int, bound int, prior int) []s
 		}
 		if len(lens) == 1 && lens[0] == otherConn {
 			bodies = append(bodies, func() { conn2.Write(payload(8, 8, 1500)) })
+			continue
+		}
+		if len(lens) == 1 && lens[0] == switching {
+			want = append(want, payload(7, 7, 300))
+			bodies = append(bodies, func() {
+				buf := make([]byte, 4096)
+				for len(reqGot) < len(reqPlain) && reqErr == nil {
+					n, err := conn.Read(buf)
+					reqGot = append(reqGot, buf[:n]...)
+					reqErr = err
+				}
+				conn.Write(payload(7, 7, 300)) // the response to that request
+			})
 			continue
 		}
 		if len(lens) == 1 && lens[0] == closer {
@@ -608,7 +702,11 @@ func execute(c *fw.Ctx, writers [][]int, prefix []int, bound int, prior int) []s
 		return out.Points
 	}
 	c.Class(scen + ":" + wireOrder(fc.wire))
-	if sym, desc := judgeFrom(secret, fc.wire, want, uint64(prior), has(writers, closer)); sym != "" {
+	if has(writers, switching) {
+		if sym, desc := judgeSwitch(fc.wire, want); sym != "" {
+			c.Report(sym+"/"+scen, desc, cas)
+		}
+	} else if sym, desc := judgeFrom(secret, fc.wire, want, uint64(prior), has(writers, closer)); sym != "" {
 		c.Report(sym+"/"+scen, desc, cas)
 	}
 	if fc2 != nil {
@@ -650,6 +748,9 @@ func scenarios(thorough bool) []scenario {
 		{[][]int{{10}, {1500}}, -1, 255},
 		{[][]int{{10}, {1500}}, -1, 65535},
 		// the connection is closed while writers are active
+		// the connection switches to encryption (first encrypted request after pair-verify) while writers are active
+		{[][]int{{switching}, {300}}, -1, 0},
+		{[][]int{{switching}, {300}, {40}}, 2, 0},
 		{[][]int{{1500}, {closer}}, -1, 0},
 		{[][]int{{300}, {40}, {closer}}, 2, 0},
 		{[][]int{{300}, {notify}, {closer}}, 2, 0},
@@ -762,6 +863,7 @@ func run(c *fw.Ctx) {
 		n := dlcheck.Explore(depth, func(sig, desc string, cas dlcheck.Case) { c.Report(sig, desc, cas) })
 		c.Eval(n)
 		c.State(n)
+		acceptIdentity(c)
 		c.Note(fmt.Sprintf("deadline forwarding: %d sequences of SetDeadline/SetReadDeadline/SetWriteDeadline calls (length ≤ %d over 12 symbols)", n, depth))
 	}
 	sc := scenarios(c.Thorough())
@@ -786,6 +888,46 @@ func run(c *fw.Ctx) {
 		}
 		c.Sample(map[string]interface{}{"writers": s.writers, "bound": s.bound, "schedules": n})
 	}
+}
+
+// acceptIdentity: responses are written through the object net/http got from the server's Accept, events and keep-alives
+// through the object the session holds. The write lock lives in that object — so it has to be ONE object: what Accept
+// returns is identical to what the context lists as the connection of the session (a wrapper or a copy would give the
+// two kinds of writers two locks). Real listener on the loopback interface, one connection.
+func acceptIdentity(c *fw.Ctx) {
+	c.Eval(1)
+	ctx := hap.NewContextForSecuredDevice(nil)
+	var srv *hchttp.Server
+	if p := func() (p interface{}) {
+		defer func() { p = recover() }()
+		srv = hchttp.NewServer(hchttp.Config{Context: ctx, Container: accessory.NewContainer()})
+		return nil
+	}(); p != nil || srv == nil {
+		c.Note(fmt.Sprintf("accept identity: the server could not be created (%v)", p))
+		return
+	}
+	defer srv.Close()
+	cl, err := net.Dial("tcp", "127.0.0.1:"+srv.Port())
+	if err != nil {
+		c.Note("accept identity: " + err.Error())
+		return
+	}
+	defer cl.Close()
+	accepted, err := srv.Accept()
+	if err != nil {
+		c.Note("accept identity: " + err.Error())
+		return
+	}
+	defer accepted.Close()
+	held := ctx.ActiveConnections()
+	cas := map[string]string{"kind": "accept-identity"}
+	switch {
+	case len(held) != 1:
+		c.Report("accept-identity/sessions", fmt.Sprintf("after one accepted connection the context holds %d sessions", len(held)), cas)
+	case held[0] != accepted:
+		c.Report("accept-identity/two-objects", fmt.Sprintf("the server hands net/http a %T for an accepted connection while the session (through which events and keep-alives are written) holds another object, a %T: responses and events do not share one write lock", accepted, held[0]), cas)
+	}
+	c.Class("accept-identity")
 }
 
 // racePass runs the same writer bodies free-running in a binary built with -race (no scheduler: the hooks are
@@ -948,6 +1090,11 @@ func replay(c *fw.Ctx, raw json.RawMessage) {
 		}
 		return
 	}
+	var ai map[string]interface{}
+	if json.Unmarshal(raw, &ai) == nil && ai["kind"] == "accept-identity" {
+		acceptIdentity(c)
+		return
+	}
 	var dc dlcheck.Case
 	if json.Unmarshal(raw, &dc) == nil && dc.Kind == "deadline-sequence" {
 		c.Eval(1)
@@ -970,7 +1117,7 @@ func init() {
 	fw.Register(&fw.Check{
 		ID:    "C08",
 		Level: "model_checking",
-		Rule:  "stateless exploration of goroutine interleavings under a cooperative scheduler with iterative preemption bounding: 2–5 writer goroutines × 1–3 Connection.Write calls with one- and two-frame payloads, keep-alive rounds sent by hap.KeepAlive itself, and EVENTs written by the notifyListener of a real (not started) IP transport after an application value change (a boolean, and a 3000-byte string: an EVENT of four frames), over a socket that stalls in the middle of every write (a write deadline armed meanwhile expires for the write in flight), the connection's own reader opening an incoming two-frame request whose ciphertext arrives in five pieces (each arrival a scheduling point) while writes are in flight, and a writer on another connection of the same accessory, on a real hap.Connection with a real secure session; scheduling points = every Lock of a sync.Mutex/RWMutex and every Wait of a sync.Cond in packages hap and crypto (import rewritten to a shim through go build -overlay) and every socket Write; per schedule the captured wire must decrypt front to back with counters in arrival order (reference AEAD) and be a sequence of whole payloads (the same for the other connection's wire), and the reader must get the request intact. 2-writer scenarios unbounded, larger ones preemption bound 2 (thorough: unbounded / 3). Plus the same questions at STATEMENT granularity (subprocess built with a scheduling point before every statement of hc's packages, preemption bound 1 / 2): two writers on one connection, a writer and the reader, writers on two connections, a write that notifies another connection. Also: the 2-writer scenario on a connection that has carried 255 / 65535 (thorough also 256, 65534, 65536) writes before; scenarios in which a third thread closes the connection while writers are active (what reaches the peer before the socket closes must still decrypt in order and be whole payloads plus at most the beginning of one — nothing unencrypted); and every sequence of ≤3 (thorough ≤4) SetDeadline / SetReadDeadline / SetWriteDeadline calls through the hap.Connection (net/http's read-deadline calls at the end of every request must not reach the write deadline of a concurrent event write). Plus a free-running pass of the same bodies in a -race build, with one run against a peer that stalls for 3.5 s (real time) in the middle of a write while two more writers arrive. distinct_nontrivial = distinct (scenario, wire record order) outcomes — more than one per scenario means writers really collided",
+		Rule:  "stateless exploration of goroutine interleavings under a cooperative scheduler with iterative preemption bounding: 2–5 writer goroutines × 1–3 Connection.Write calls with one- and two-frame payloads, keep-alive rounds sent by hap.KeepAlive itself, and EVENTs written by the notifyListener of a real (not started) IP transport after an application value change (a boolean, and a 3000-byte string: an EVENT of four frames), over a socket that stalls in the middle of every write (a write deadline armed meanwhile expires for the write in flight), the connection's own reader opening an incoming two-frame request whose ciphertext arrives in five pieces (each arrival a scheduling point) while writes are in flight, and a writer on another connection of the same accessory, on a real hap.Connection with a real secure session; scheduling points = every Lock of a sync.Mutex/RWMutex and every Wait of a sync.Cond in packages hap and crypto (import rewritten to a shim through go build -overlay) and every socket Write; per schedule the captured wire must decrypt front to back with counters in arrival order (reference AEAD) and be a sequence of whole payloads (the same for the other connection's wire), and the reader must get the request intact. 2-writer scenarios unbounded, larger ones preemption bound 2 (thorough: unbounded / 3). Plus the same questions at STATEMENT granularity (subprocess built with a scheduling point before every statement of hc's packages, preemption bound 1 / 2): two writers on one connection, a writer and the reader, writers on two connections, a write that notifies another connection. Also: a connection that switches to encryption — its reader takes the controller's first encrypted request and writes the response — while other writers are active (seen from the accessory: plain messages, then frames, never plain text after the first frame); the 2-writer scenario on a connection that has carried 255 / 65535 (thorough also 256, 65534, 65536) writes before; scenarios in which a third thread closes the connection while writers are active (what reaches the peer before the socket closes must still decrypt in order and be whole payloads plus at most the beginning of one — nothing unencrypted); the object the server's Accept hands to net/http is the one the session holds (responses and events share one write lock); and every sequence of ≤3 (thorough ≤4) SetDeadline / SetReadDeadline / SetWriteDeadline calls through the hap.Connection (net/http's read-deadline calls at the end of every request must not reach the write deadline of a concurrent event write). Plus a free-running pass of the same bodies in a -race build, with one run against a peer that stalls for 3.5 s (real time) in the middle of a write while two more writers arrive. distinct_nontrivial = distinct (scenario, wire record order) outcomes — more than one per scenario means writers really collided",
 		Shards: func(t string) int {
 			if t == "thorough" {
 				return 16
